@@ -1447,7 +1447,9 @@ func buildFromStringProto(src protoreflect.FieldDescriptor, ext protoFieldExtens
 
 	}
 	if psmKeyExt != nil {
-		ee := &schema_j5pb.EntityKey{}
+		ee := &schema_j5pb.EntityKey{
+			TenantKey: psmKeyExt.TenantType,
+		}
 		if psmKeyExt.PrimaryKey {
 			ee.Type = &schema_j5pb.EntityKey_PrimaryKey{
 				PrimaryKey: true,
